@@ -147,11 +147,9 @@ def okSpan (t : TxSpec) (a : Option Location) : Bool :=
 
 def noEmptyBlock (bs : List Blk) : Bool := bs.all (fun b => decide (b.1 < b.2))
 
-/-- introns = span − exons, as position sets; no intron ⇒ the empty location.
-    (Claimed for transcripts without zero-length exons: a zero-length first or last exon stretches
-    the span without adding a base, and the property speaks about exons that exist.) -/
+/-- introns = span − exons, as position sets; no intron ⇒ the empty location. -/
 def okIntrons (t : TxSpec) (a : Option Location) : Bool :=
-  if ¬ (txScope t && noEmptyBlock t.E.blocks) then true
+  if ¬ txScope t then true
   else match a with
     | none => false
     | some g =>
